@@ -159,6 +159,9 @@ def run_writer_layout(chk, F, fs, rule="W4.layout", names=("write_bits", "write_
                            detail={"fn": b["path"], "cfg": "u%d" % w, "word": mir.fmt(bad[1])[:300] if bad else None})
 
 
+_e7_clean = {}
+
+
 def run_clean_writes(chk, F, fs, specs, rule="G1.clean"):
     """under the `checks` feature: at every write_bits(v, n) issued by library code, v has no set bit at or above position n
     (so the argument check can never fire on an in-domain library call)"""
@@ -190,6 +193,16 @@ def run_clean_writes(chk, F, fs, specs, rule="G1.clean"):
             lemmas = rn.load_lemmas()
             for i, (line, s) in enumerate(sorted(sites.items(), key=lambda kv: kv[0] or 0)):
                 key = "%s@u%d@%s|write_bits#%d" % (spec.key, w, fs, i)
+                if not s["ok"] and spec.group == "codes" and spec.key.endswith(".write"):
+                    # the bit-range domain cannot see every way of clearing high bits (e.g. `x - (1 << ilog2(x))`): decide the writer
+                    # by interpreting it on every value and every parameter (operands within their width on every cell)
+                    import rules_ivl
+                    code = spec.key.split(".")[0]
+                    if code not in _e7_clean:
+                        _e7_clean[code] = rules_ivl.fields_all_params(F, fs, code, what="clean")
+                    if _e7_clean[code][0]:
+                        chk.ok(rule, key, sample={"fn": spec.key, "decided_by": _e7_clean[code][1]})
+                        continue
                 if not s["ok"]:
                     lem = [l for l in lemmas if l[1].search(spec.key) and l[2].search("G1|write_bits#%d" % i)]
                     if lem:
